@@ -261,4 +261,26 @@ theorem inc_list (es : List (PyId × List PyId)) (hn : (es.map (·.1)).Nodup) (n
 theorem view_wf {h : Net} (hn : (h.edges.map (·.1)).Nodup) : VWF (view h) :=
   ⟨fun n e => inc_list h.edges hn n e⟩
 
+/-! ### a concrete reordering -/
+
+theorem members_of_mem_list (es : List (PyId × List PyId)) (hn : (es.map (·.1)).Nodup) {p : PyId × List PyId} (hp : p ∈ es) :
+    ((es.find? (fun q => decide (q.1 = p.1))).map (·.2)).getD [] = p.2 := by
+  induction es with
+  | nil => cases hp
+  | cons r t ih =>
+    simp only [List.map_cons, List.nodup_cons] at hn
+    rcases List.mem_cons.1 hp with rfl | hp'
+    · simp
+    · have hne : ¬ r.1 = p.1 := fun hc => hn.1 (hc ▸ List.mem_map_of_mem hp')
+      simp only [List.find?_cons, hne, decide_false]
+      exact ih hn.2 hp'
+
+theorem reorder_reverseAll {h : Net} (hn : (h.edges.map (·.1)).Nodup) : Reorder h (reverseAll h) := by
+  have hm : ∀ p ∈ h.edges, h.members p.1 = p.2 := fun p hp => members_of_mem_list h.edges hn hp
+  refine ⟨List.reverse_perm _, fun e => (h.members e).reverse, fun p hp => ?_, ?_⟩
+  · show ((h.members p.1).reverse).Perm p.2
+    rw [hm p hp]; exact List.reverse_perm _
+  · show ((h.edges.map (fun p => (p.1, p.2.reverse))).reverse).Perm (h.edges.map (fun p => (p.1, (h.members p.1).reverse)))
+    exact (List.reverse_perm _).trans (List.Perm.of_eq (List.map_congr_left (fun p hp => by rw [hm p hp])))
+
 end Xgi.C09
